@@ -96,6 +96,8 @@ def item(s, kind=None, outcome=None):
         outs = ["ok"] * cfg.ok_w
         if cfg.faults:
             outs += ["err"]
+            if cfg.lazy_raise:          # (the same switch that allows the other exotic failure kinds)
+                outs += ["errbase"]
             if cfg.unset:
                 outs += ["unset"]
         outcome = s.pick(outs)
